@@ -32,8 +32,10 @@ already finished empty derivations of 1d73281f, the `covering` bookkeeping of 73
 `for state in table[k]` calls the scanner on every state it visits and visits what the scanner adds to `table[k]`),
 together with `want` (terminal after the dot), `adv` (move the dot over a scanned leaf), `trees` (children of
 finished `<*start*>` items) and `completeOnly` (the completion-only closure `can_continue` runs).  The laws the
-theorems need of it are `Engine.Lawful` (Proofs/Incremental.lean).  `linEngine` is a concrete lawful instance
-(grammars that are finite unions of terminal sequences); the driver runs it against the real parser.
+theorems need of it are `Engine.LawfulOn` (Proofs/Incremental.lean).  `linEngine` is a concrete lawful instance
+(grammars that are finite unions of terminal sequences); **`Model/IncrEarley.lean: earleyEngine` is the closure of the
+parser as it is** (built from `Earley.step`; the laws are proved for the passes that end, without the covering cut
+firing and without a live `*` / `+` state: `Proofs/IncrEarleyLaws.lean`); the driver runs both against the real parser.
 
 Relation to `Model/Scan.lean` (C05): that file models ONE scan of a fresh state on a whole word (no incomplete
 states, oracle indexed by word position) — the same three scanners restricted to `inc = false`, `rest` = the rest
